@@ -241,6 +241,9 @@ def run_method(method, variant, locked):
         I.oblige('cover', True, 'cover')
         out, info = call_method(I, st, method, variant)
         r = st.obj
+        foreign = [(str(w[0]), w[1], w[2]) for w in I.writes if w[0] is not st.obj]
+        I.oblige('frame[arguments]', len(foreign) == 0, 'property',
+                 note=f"objects handed to the recipe were written: {foreign[:4]}")
         needs = info.get('needs', [])
         declares = info.get('declares', [])
         all_declared = z3.And(*[st.results0[n] for n in needs]) if needs else z3.BoolVal(True)
